@@ -9,6 +9,7 @@ collected), does not fire; unregistering an fd removes it from the ready list as
 import Verif.Inv.Kernel
 import Verif.Model.Loop
 import Verif.Inv.Ctl
+import Verif.Inv.Release
 
 namespace Verif.Props.C07
 open Verif.Token Verif.Kernel Verif.Loop Verif.Wheel
@@ -69,5 +70,34 @@ theorem disable_outside_processing_is_immediate (k : Nat) :
 theorem nothing_deferred_reaches_the_next_event (ev : Verif.Kernel.Event) :
     Verif.Inv.Ctl.Hoare (Verif.Inv.Ctl.Top none) (processOne ev) (fun _ => Verif.Inv.Ctl.Top none) (Verif.Inv.Ctl.Top none) :=
   Verif.Inv.Ctl.hoare_processOne ev
+
+
+/-! ### what a successful unregistration leaves behind -/
+
+open Verif.Loop in
+/-- **From every state** in which object `k` has the shape its constructor gave it: when the source-level unregistration
+    that `disable`, `remove`, a `Disable` / `Remove` post action and the clean-up of a self-removed source all perform
+    returns normally, no sub-source of `k` holds the poller or a token any more.  With `C16.released_fd_not_registered`:
+    its fds are gone from the kernel's table (unless another source holds them), so no event can reach it while it is
+    disabled. -/
+theorem unregistration_releases_every_sub_source (k : Nat) (s : St) (hs : Verif.Inv.Release.Shaped k s) :
+    match srcUnregister k s with
+    | .ok _ s' => ∀ src, alookup s'.srcs k = some src → ∀ g ∈ src.gens, g.poller = false ∧ g.token = none
+    | .error _ _ => True := by
+  have := Verif.Inv.Release.srcUnregister_releases k s hs
+  cases hx : srcUnregister k s with
+  | ok a s' => rw [hx] at this; exact this
+  | error e s' => trivial
+
+open Verif.Loop in
+/-- non-vacuity: a composite source with three registered sub-sources -/
+def releaseWitness : Bool :=
+  let s := run [.c (.newCustom 1 3 false), .c (.insert 1)]
+  (match alookup s.srcs 1 with | some src => src.gens.all (·.poller) | none => false) &&
+  (match srcUnregister 1 s with
+   | .ok _ s' => (match alookup s'.srcs 1 with | some src => src.gens.all (fun g => !g.poller && g.token.isNone) && src.gens.length == 3 | none => false)
+   | .error _ _ => false)
+
+example : releaseWitness = true := by decide +kernel
 
 end Verif.Props.C07
